@@ -320,6 +320,10 @@ class Extractor {
     } else if (isa<CXXThisExpr>(S)) {
       O["k"] = "this";
     } else if (const auto *DR = dyn_cast<DeclRefExpr>(S)) {
+      if (const auto *BD = dyn_cast<BindingDecl>(DR->getDecl())) {
+        // structured binding: the name stands for an expression on the hidden decomposed variable
+        if (const Expr *B = BD->getBinding()) return ser(B);
+      }
       serDeclRef(DR, O);
     } else if (const auto *ME = dyn_cast<MemberExpr>(S)) {
       O["k"] = "member";
@@ -363,9 +367,28 @@ class Extractor {
       O["k"] = "lambda";
       O["fn"] = fnKey(LE->getCallOperator());
       json::Array Caps;
-      for (const auto &C : LE->captures())
-        if (C.capturesVariable()) Caps.push_back(C.getCapturedVar()->getNameAsString());
+      json::Array Inits;
+      auto InitIt = LE->capture_init_begin();
+      for (const auto &C : LE->captures()) {
+        const Expr *Init = (InitIt != LE->capture_init_end()) ? *InitIt : nullptr;
+        if (InitIt != LE->capture_init_end()) ++InitIt;
+        if (!C.capturesVariable()) continue;
+        const auto *CV = C.getCapturedVar();
+        Caps.push_back(CV->getNameAsString());
+        if (const auto *VD = dyn_cast<VarDecl>(CV)) {
+          if (VD->isInitCapture() && VD->getInit()) {
+            // [name = expr]: the capture is a fresh variable initialised when the lambda is created
+            json::Object IC;
+            IC["name"] = VD->getNameAsString();
+            IC["did"] = declId(VD);
+            IC["isref"] = VD->getType()->isReferenceType();
+            IC["init"] = child(VD->getInit());
+            Inits.push_back(std::move(IC));
+          }
+        }
+      }
       O["captures"] = std::move(Caps);
+      O["init_captures"] = std::move(Inits);
     } else if (const auto *NE = dyn_cast<CXXNewExpr>(S)) {
       O["k"] = "new";
       O["alloc_type"] = typeStr(NE->getAllocatedType());
